@@ -231,10 +231,15 @@ class Check(PropertyCheck):
             name, scn, call, cls, n, act, val = job
             m = self.models[ji]
             d = fl.compare(scn, real, m, check_stdout=False)
+            if act == "R":
+                # while the main thread handles a signal, a worker may still print the diagnostic of a failure it ran into
+                d = [x for x in d if not x.startswith("diagnostics")]
             if d:
                 # a signal raised by a worker thread races with the completion signal of the run: retry
                 again = self.run_plan(scn, call, cls, n, act, val, os.path.join(self.scn_dir, "j%d" % ji))
                 d2 = fl.compare(scn, again, m, check_stdout=False)
+                if act == "R":
+                    d2 = [x for x in d2 if not x.startswith("diagnostics")]
                 if not d2:
                     flaky += 1
                     self.reals[ji] = again
@@ -245,6 +250,8 @@ class Check(PropertyCheck):
                 # if it had not been sent (declared partiality of the model; reported as a finding, counted here)
                 if not fl.compare(scn, self.reals[ji], clean_model[name], check_stdout=False):
                     lost_term += 1
+                    if not hasattr(self, "lost_term_example"):
+                        self.lost_term_example = (name, scn, call, cls, n, self.reals[ji]["outcome"])
                     d = []
             if d:
                 dis.append({"scenario": fl.scn_brief(scn), "argv": fl.argv_of(scn), "name": name,
@@ -264,6 +271,8 @@ class Check(PropertyCheck):
         lost = freal["outcome"] == "E1" and not any(e.get("data") == fscn["inodes"][10]["data"] for e in freal["listing"])
         self.notes.append("finding force-symlink (`echo data > x; ln -s x x.bz2; lbzip2 -df x.bz2`): exit %s, data %s" % (
             freal["outcome"], "LOST (no file holds it any more)" if lost else "still present"))
+        self.finding_symlink = (fscn, freal, lost)
+        self.clean_runs = {name: (scn, real) for name, scn, real in clean}
         self.disagreements = dis
         for dd in dis[:6]:
             self.broken.append(Broken("correspondence", "fault model vs lbzip2 differ: scenario %s, `lbzip2 %s`, plan %s" % (
@@ -334,6 +343,7 @@ class Check(PropertyCheck):
             return []
         viols = []
         pairing = {"exit1_or_signal_with_second_state": 0}
+        pairing_example = None
         for job, real, m in zip(self.jobs, self.reals, self.models):
             name, scn, call, cls, n, act, val = job
             plan = (call, n, cls, act, val)
@@ -346,6 +356,8 @@ class Check(PropertyCheck):
                 if cfg["outmode"] == "r" and scn["ops"] and doc_out_name(cfg["decompress"], scn["ops"][-1]) in after \
                         and scn["ops"][-1] not in after:
                     pairing["exit1_or_signal_with_second_state"] += 1
+                    if pairing_example is None:
+                        pairing_example = (name, scn, [call, cls, n, act, val], real)
             for pb in probs[:2]:
                 viols.append(Violation("c16:data-loss:%s" % call, "scenario %s, `lbzip2 %s`, %s #%d %s %s: %s" % (
                     name, " ".join(fl.argv_of(scn)), call, n, "fails with errno" if act == "F" else "raises SIG", val, pb),
@@ -354,14 +366,48 @@ class Check(PropertyCheck):
         self.notes.append("status/state pairing: %d injected runs ended with exit 1 or death by INT/TERM although the last operand was "
                           "already completely converted (close(input) failing, or a signal taken at/after sti()) -- no data lost; "
                           "see C16_status_pairing_refuted" % pairing["exit1_or_signal_with_second_state"])
-        self.notes.append("finding sigterm-swallowed: in %d injected runs a SIGTERM raised by a worker thread at one of its last write() calls "
+        self.notes.append("observation sigterm-swallowed (not a C16 violation: the signal does not stop the run): in %d injected runs a SIGTERM raised by a worker thread at one of its last write() calls "
                           "was overwritten by the completion signal SIGUSR2 (signal_handler keeps only the last signal in caught_index); "
                           "lbzip2 then finished normally with status 0 instead of terminating" % getattr(self, "lost_term", 0))
+        viols += self.findings(pairing, pairing_example)
         seen, out = set(), []
         for v in viols:
             if v.key not in seen:
                 seen.add(v.key)
                 out.append(v)
+        return out
+
+    def findings(self, pairing, pairing_example):
+        """Confirmed deviations of the implementation from the property text, reported with fixed keys whenever this run
+        reproduced them on the real binary (they are meant to be listed in known_findings.json)."""
+        out = []
+        # (1) data loss with -f when the operand is a symbolic link to the file that has the output's name
+        if hasattr(self, "finding_symlink"):
+            fscn, freal, lost = self.finding_symlink
+            if lost:
+                out.append(Violation("c16:force-symlink",
+                                     "`echo data > x; ln -s x x.bz2; lbzip2 -df x.bz2`: the run fails (exit %s) and the data is gone: -f unlinks "
+                                     "the output name `x`, which is the file the operand links to, before work(); cleanup() then removes the new "
+                                     "file (C16_force_symlink_refuted)" % freal["outcome"],
+                                     {"scenario": fl.scn_brief(fscn), "argv": fl.argv_of(fscn), "plan": None, "exit": freal["outcome"],
+                                      "after": [fl.short(e) for e in freal["listing"]]}))
+        # (2) exit status 1 / death by signal although the operand is already in the second state
+        if pairing_example is not None:
+            name, scn, plan, real = pairing_example
+            out.append(Violation("c16:status-pairing",
+                                 "scenario %s, `lbzip2 %s`, plan %s: ends with %s although the output is complete and the input removed "
+                                 "(close(input) failing, or a signal taken at/after sti()); %d such plans in this run; nothing is lost "
+                                 "(C16_status_pairing_refuted)" % (name, " ".join(fl.argv_of(scn)), plan, real["outcome"],
+                                                                    pairing["exit1_or_signal_with_second_state"]),
+                                 {"scenario": fl.scn_brief(scn), "argv": fl.argv_of(scn), "plan": plan, "name": name, "exit": real["outcome"],
+                                  "after": [fl.short(e) for e in real["listing"]]}))
+        # (3) SIGTERM swallowed by the completion signal: the signal does not stop lbzip2 and the run ends complete with status 0,
+        # so this is outside what C16 claims ("whenever SIGINT or SIGTERM stops lbzip2"); kept as an observation in the notes
+        ex = getattr(self, "lost_term_example", None)
+        if ex is not None:
+            name, scn, call, cls, n, outcome = ex
+            self.notes.append("observation sigterm-swallowed: first instance: scenario %s, `lbzip2 %s`, SIGTERM raised at %s #%d of a worker "
+                              "thread -> %s" % (name, " ".join(fl.argv_of(scn)), call, n, outcome))
         return out
 
     def search(self):
